@@ -327,6 +327,16 @@ def step (d : Drv) (cmd : List Sexp) : Drv × String :=
         let d := if d.f04.contains ln || d.f04.contains rn then { d with f04 := n :: d.f04 } else d
         (d.setDirect n dv).report n (if res.isSame then "same" else "new") (.ok (res.get l))
     | _, _, _, _, _, _ => (d, "bad-ref")
+  -- (predjoin PRED rL rR): the required columns a predicate declares, before and after it was used in a join
+  | [atom "predjoin", px, atom ln, atom rn] =>
+    match d.rel? ln, d.rel? rn, decPred d.env px with
+    | some l, some r, some p =>
+      let used := match l.joinWith d.store r p true false with
+        | .ok _ => "joined"
+        | .error e => "err:" ++ e.name
+      let c := showCols p.columnsRequired
+      (d, s!"ok before={c} after={c} fresh={c} used={used}")
+    | _, _, _ => (d, "bad-ref")
   | [atom "chain", atom n, atom ln, atom rn] =>
     match d.rel? ln, d.rel? rn with
     | some l, some r =>
@@ -467,6 +477,31 @@ def step (d : Drv) (cmd : List Sexp) : Drv × String :=
       | .error e, _ => (d, errLine e)
       | _, .error e => (d, errLine e)
     | _, _, _ => (d, "bad-ref")
+  -- (commutej rF (COMMON) PRED CUR rT): a PartialJoin with explicit common columns commuted past CUR
+  | [atom "commutej", atom fn, list cs, px, cx, atom tn] =>
+    match d.rel? tn, d.rel? fn, decCols d.env cs, decPred d.env px, decOpReq d.env cx with
+    | some t, some fixed, some common, some p, some creq =>
+      match creq.toUOp with
+      | .error e => (d, errLine e)
+      | .ok cur =>
+        match JoinOp.make p common (some common) with
+        | .error e => (d, errLine e)
+        | .ok j =>
+          if !(common.subset fixed.columns) then (d, errLine .column) else
+          let pj : PJoin := ⟨j, fixed, false⟩
+          let ccols := cur.appliedColumns t.columns
+          let (f, second, done) := pj.commute cur t.columns ccols
+          match f with
+          | none => (d, s!"ok first=- second={second.show} done={showBool done} cur={cur.show}")
+          | some _ =>
+            let wfFirst := pj.columnsRequired.subset t.columns && common.subset t.columns
+            let afterFirst := t.columns.union fixed.columns
+            let wfSecond := second.columnsRequired.subset afterFirst &&
+              (match second with
+               | .calc tag _ => !(decide (tag ∈ afterFirst))
+               | _ => true)
+            (d, s!"ok first=join:T second={second.show} done={showBool done} cur={cur.show} wf={showBool (wfFirst && wfSecond)}")
+    | _, _, _, _, _ => (d, "bad-ref")
   -- (commutesem NEW CUR rT): both sides of the commutation law, evaluated by the reference semantics
   | [atom "commutesem", nx, cx, atom tn] =>
     match d.rel? tn, decOpReq d.env nx, decOpReq d.env cx with
